@@ -161,12 +161,13 @@ impl Scenario for DrgScn {
                 }
                 K_FILL_SLICE => {
                     let n = (op.len as usize).min(300_000);
-                    let mut buf = data(op.seed, n);
-                    if buf.iter().any(|b| *b != 0) {
+                    // dirty destination at a misalignment of its own (0..31 bytes off a 32-byte boundary)
+                    let mut buf = crate::rng::Aligned::dirty(op.seed, n);
+                    if buf.get().iter().any(|b| *b != 0) {
                         obs.hit("fault.dirty_destination");
                     }
-                    guarded(|| real.fill_slice(&mut buf)).map_err(|m| Violation::new("unexpected-panic", i, "fill_slice", m, "drg"))?;
-                    (buf, n)
+                    guarded(|| real.fill_slice(buf.get_mut())).map_err(|m| Violation::new("unexpected-panic", i, "fill_slice", m, "drg"))?;
+                    (buf.to_vec(), n)
                 }
                 K_U32 => {
                     let v = guarded(|| real.u32()).map_err(|m| Violation::new("unexpected-panic", i, "u32", m, "drg"))?;
